@@ -22,12 +22,19 @@ def check_case(ctx, cs):
     small = {"deg": sh0["deg"], "kv": sh0["kv"], "rat": sh0["rat"], "hist": hist}
     ctx.count(c04.hist_key(cs), sample={"sh0": {k: sh0[k] for k in ("deg", "kv", "size", "rat")}, "hist": hist, "expected_kv": exp["kv"]})
     tg0 = tg
-    for via in ("operations", "method", "tiny", "huge", "alt", "alt_method"):
+    unit_range = all(U[0] == [0, 1] and U[-1] == [1, 1] for U in sh0["kv"])
+    for via in ("operations", "method", "tiny", "huge", "alt", "alt_method") + (("tiny_knot_range",) if unit_range else ()):
         site = ("%s." % KIND[len(sh0["deg"])].capitalize() if via in ("method", "alt_method") else "operations.") + "remove_knot"
         conj = {"tiny": 2.0 ** -40, "huge": 2.0 ** 20}.get(via)      # (the same history in a very small / very large unit)
-        tg = tg0 + (["coordinates=" + via] if conj is not None else []) + (["tuples_and_ints"] if via.startswith("alt") else [])
+        tg = tg0 + (["coordinates=" + via] if conj is not None else []) + (["tuples_and_ints"] if via.startswith("alt") else []) + (["knot_range=2^-16"] if via == "tiny_knot_range" else [])
         try:
-            obj, infos = replay_history(sh0, hist, "method" if via in ("method", "alt_method") else "operations", conj=conj, alt_repr=via.startswith("alt"))
+            obj, infos = replay_history(sh0, hist, "method" if via in ("method", "alt_method") else "operations", conj=conj, alt_repr=via.startswith("alt"),
+                                        kv_scale=(2 ** 16 if via == "tiny_knot_range" else None))
+            if via == "tiny_knot_range":
+                # (back onto [0, 1] for the comparison with the specification's result)
+                for U_ in obj._knot_vector:
+                    for i_ in range(len(U_)):
+                        U_[i_] = U_[i_] * 2.0 ** 16
         except Exception as e:
             ctx.violate(site, tg + ["raises"], small, {"exception": repr(e)[:300]})
             continue
